@@ -66,7 +66,11 @@ def gen_item(rng):
             vals = [rng.choice(["a", "b", "ab", "c*"]) for _ in range(n)] if rng.random() < 0.7 else [rng.randint(1, 9) for _ in range(n)]
             if mod in ("cidr",):
                 vals = [gen_value(rng, mod) for _ in range(n)]
+        if mod in ("", "all") and rng.random() < 0.12:
+            vals[rng.randrange(len(vals))] = "QX:" + rng.choice(["a", "lst1"])
         return key, vals
+    if mod == "" and rng.random() < 0.03:
+        return key, "QX:a"
     return key, gen_value(rng, mod)
 
 
@@ -191,6 +195,8 @@ def value_ref(field, v, k):
         return ["atom", ("cmp_ts", f, v[1], v[2], v[3])]
     if t == "fieldref":
         return ["atom", ("fieldref", f, v[1], v[2], v[3])]
+    if t == "qx":
+        return ["atom", ("qx", f, v[1])]
     return ["atom", ("other", f, json.dumps(v))]
 
 
@@ -343,6 +349,8 @@ def c_key(t):
         return "YTs %s %s %s" % (f, cstr(t[2]), cstr(str(t[3])))
     if k == "fieldref":
         return "YFieldRef %s %s %s %s" % (f, cstr(t[2]), cbool(t[3]), cbool(t[4]))
+    if k == "qx":
+        return "YQx %s %s" % (f, cstr(t[2]))
     return None
 
 
@@ -481,6 +489,9 @@ def expected_item(key, val):
         return None
     out = []
     for v in vals:
+        if v.startswith("QX:"):          # injected by the harness after loading (impl/c01.py): a query expression
+            out.append(["qx", v[3:]])
+            continue
         items, cased = _spec_items(v), False
         for m in mods:
             if m == "contains":
